@@ -122,6 +122,7 @@ class SimBase:
                             'sid': sid, 'idx': idx})
         if self.on_event:
             self.on_event('connect', sid, environ)
+        self._connect_idx = idx
         if idx < len(self.connect_script):
             out = self.connect_script[idx]
             if out == 'raise':
